@@ -9,10 +9,10 @@ TECH = {
  'C01': 'static analysis: algebraic value numbering over MIR (normal-form identity evaluate ≡ Σcᵢxⁱ), fold schema for Horner, rounding-depth counters',
  'C02': 'static analysis: value-numbered result of Piecewise::evaluate reduced to a piece index; loops closed into searches; one-search normal form (position, find, partition_point+min, index reduced by linear entailment) or, for any other shape, the index decided from its definition path by path (what each path knows about end_k > x must cover [0,i) and justify i)',
  'C03': 'static analysis: one-step transfer of the evaluator (loops closed into searches; slice or index cursor, fields found by role) translated to a hand-proved reference step: per direction one search with the reference domain, predicate, cursor and piece on found / not found; representation, direction and paired-update rules',
- 'C04': 'static analysis: algebraic value numbering (Hermite and Kruger normal-form identities) + stream alignment of the zip/chain/skip assembly pipeline',
+ 'C04': 'static analysis: algebraic value numbering (Hermite and Kruger normal-form identities) + stream alignment of the zip/chain/skip assembly pipeline + domain clause (the only rejected inputs are fewer than three knots)',
  'C05': 'static analysis: guard normal form s01·s12 ≤ 0, positive-coefficient test on slope/secant ratios, imported C04 identities; monotonicity lemma on paper',
- 'C06': 'static analysis: the recurrence computed by linear() — as a stateful map, scan, loop, in-place pass over a copy followed by neighbouring pairs, or read back from the last piece — closed into a scan and checked against L(0)=knots[0], R=(max(L.x,k.x),k.y), L(i+1)=R(i), end=R.x, plus normal-form identities of the segment helper',
- 'C07': 'static analysis: algebraic value numbering over MIR; normal-form identities for indefinite/integral lanes, d/dx identity, knot identity',
+ 'C06': 'static analysis: the recurrence computed by linear() — as a stateful map, scan, loop, in-place pass over a copy followed by neighbouring pairs, or read back from the last piece — closed into a scan and checked against L(0)=knots[0], R=(max(L.x,k.x),k.y), L(i+1)=R(i), end=R.x, plus normal-form identities of the segment helper and the domain clause (the only rejected inputs are fewer than two knots)',
+ 'C07': 'static analysis: algebraic value numbering over MIR; normal-form identities for indefinite/integral lanes, d/dx identity, knot identity, degree bound on every intermediate power of knot.x in the constant term',
  'C08': 'static analysis: algebraic value numbering over MIR; lane normal forms, map/collect traversal schema, `end` value-number identity',
  'C09': 'static analysis: algebraic value numbering over MIR + formal derivation in Q[c][t, ln t, 1/t] (D(F) = p(ln t))',
  'C10': 'static analysis: algebraic value numbering (series coefficients, closed form, evaluate shape) + sound numeric bounds by directed-rounding interval arithmetic over the whole argument domain',
@@ -49,7 +49,7 @@ CHECKS = {
    note='SCAN induction (running maximum) on paper; f64::max model.'),
  'C07': dict(cat='proof', ref=P + 'C07',
    text='indefinite() lanes are [0, c0, c1/2, …] with at most one rounding each; d/dx of the returned polynomial equals p; integral(knot) evaluates to knot.y at knot.x and differs from indefinite() in the constant only; derivative∘indefinite returns p with ≤ 2 roundings; Segment delegates keeping `end` — all as normal-form identities for every coefficient vector and knot.',
-   note='Identities over the reals; rounding is counted (ops per coefficient), not bounded numerically; overflow/underflow excluded.'),
+   note='Identities over the reals; rounding is counted (ops per coefficient), not bounded numerically; overflow/underflow excluded except for the structural clause that no intermediate of the constant term is a higher power of knot.x than the result.'),
  'C08': dict(cat='proof', ref=P + 'C08',
    text='derivative() lanes are (i+1)·c_{i+1} with one rounding (none for powers of two); Σdᵢxⁱ ≡ p′(x); Segment::derivative keeps `end` verbatim; Piecewise::derivative is collect(map(iter(all segments))) with piece ι ↦ segments[ι].derivative(), so count, order and ends are unchanged for every length.',
    note='Map/collect semantics of std iterators (model); induction over the traversal schema on paper.'),
